@@ -1,4 +1,4 @@
-from typing import Callable, SupportsFloat
+from typing import Callable, Optional, SupportsFloat
 from sympy import Expr, Pow, Derivative, Abs, Mul, Add, Function as SymFunction, sympify
 from sympy.functions.elementary.miscellaneous import MinMaxBase
 from sympy.physics.units import Quantity as SymQuantity, Dimension
@@ -51,19 +51,39 @@ def _collect_pow(expr: Pow) -> tuple[Expr, Dimension]:
     raise ValueError(f"Dimension of '{expr.exp}' is {exp_dim}, but it should be dimensionless")
 
 
-@_elementwise_wrapper
-def _collect_add(factor: Expr, dim: Dimension, arg: Expr) -> tuple[Expr, Dimension]:
-    arg_factor, arg_dim = collect_quantity_factor_and_dimension(arg)
+def _collect_terms(expr: Expr) -> tuple[list[Expr], Dimension]:
+    """
+    Collects the arguments of a sum-like node (`Add`, `Min`, `Max`). Returns their scale factors and
+    their common dimension. Arguments equal to zero, infinity or NaN are compatible with any
+    dimension.
 
-    if is_any_dimension(factor):
-        dim = arg_dim
-    elif is_any_dimension(arg_factor):
-        arg_dim = dim
+    Raises:
+        ValueError: If the dimensions of the other arguments don't match.
+    """
 
-    if not dimsys_SI.equivalent_dims(dim, arg_dim):
-        raise ValueError(f"Dimension of '{arg}' is {arg_dim}, but it should be {dim}")
+    factors: list[Expr] = []
+    dim: Optional[Dimension] = None
 
-    return (factor + arg_factor, dim)
+    for arg in expr.args:
+        arg_factor, arg_dim = collect_quantity_factor_and_dimension(arg)
+        factors.append(arg_factor)
+
+        if is_any_dimension(arg_factor):
+            continue
+
+        if dim is None:
+            dim = arg_dim
+            continue
+
+        if not dimsys_SI.equivalent_dims(dim, arg_dim):
+            raise ValueError(f"Dimension of '{arg}' is {arg_dim}, but it should be {dim}")
+
+    return factors, (dimensionless if dim is None else dim)
+
+
+def _collect_add(expr: Add) -> tuple[Expr, Dimension]:
+    factors, dim = _collect_terms(expr)
+    return (Add(*factors), dim)
 
 
 def _collect_abs(expr: Abs) -> tuple[Expr, Dimension]:
@@ -72,22 +92,8 @@ def _collect_abs(expr: Abs) -> tuple[Expr, Dimension]:
 
 
 def _collect_min_max(expr: MinMaxBase) -> tuple[Expr, Dimension]:
-    cls = type(expr)
-
-    def collect(factor: Expr, dim: Dimension, arg: Expr) -> tuple[Expr, Dimension]:
-        arg_factor, arg_dim = collect_quantity_factor_and_dimension(arg)
-
-        if is_any_dimension(factor):
-            dim = arg_dim
-        elif is_any_dimension(arg_factor):
-            arg_dim = dim
-
-        if not dimsys_SI.equivalent_dims(dim, arg_dim):
-            raise ValueError(f"Dimension of '{arg}' is {arg_dim}, but it should be {dim}")
-
-        return (cls(factor, arg_factor), dim)
-
-    return _elementwise_wrapper(collect)(expr)
+    factors, dim = _collect_terms(expr)
+    return (type(expr)(*factors), dim)
 
 
 def _collect_function(expr: SymFunction) -> tuple[Expr, Dimension]:
